@@ -880,15 +880,15 @@ def cross_scheme_cases(ctx, kt):
     return cases
 
 
-def op_state_matrix(ctx, kt, first_scheme=None):
+def op_state_matrix(ctx, kt, first_scheme=None, own_rng=None):
     """every mutator x a fixed set of record states x argument classes (the value already stored / another valid value /
     an invalid one) x signer (the record's key, another key of the scheme, a key of the other scheme under CombinedKey),
     each as a two-step case: the call, and the same call again. Systematic where the random histories are not."""
-    rng, o = ctx.rng, ctx.oracle
+    rng, o = (own_rng or ctx.rng), ctx.oracle
     ks = gens.secrets(rng, o, kt, 6)
     if kt == "comb" and first_scheme is None:
         # once with a secp256k1-keyed record and once with an ed25519-keyed one (the other scheme's key is slot c)
-        return op_state_matrix(ctx, kt, "k") + op_state_matrix(ctx, kt, "ed")
+        return op_state_matrix(ctx, kt, "k", own_rng) + op_state_matrix(ctx, kt, "ed", own_rng)
     if first_scheme is not None:
         ks = [k for k in ks if k.scheme == first_scheme][:1] + [k for k in ks if k.scheme != first_scheme][:1] + [k for k in ks if k.scheme == first_scheme][1:]
     a = ks[0]
@@ -941,8 +941,12 @@ def op_state_matrix(ctx, kt, first_scheme=None):
         if name.startswith("sz") or name == "both":
             return ["remove_udp4 %s 0" % sl, "remove_tcp %s 0" % sl, "remove_key %s 0 %s" % (sl, hx(b"nokey")), "remove_udp_socket %s 0" % sl,
                     "remove_insert %s 0 %s none" % (sl, hx(b"udp"))]
+        own = ["remove_key %s %s %s" % (sl, fm, hx(a.entry)) for fm in ("0", "1", "3")] + ["remove_insert %s 0 %s none" % (sl, hx(a.entry)), "remove_insert %s 1 %s none" % (sl, hx(a.entry))]
+        if name == "typ":
+            # the record's own public-key entry removed by a call that then fails (signing fault) or succeeds
+            return own
         if name in ("max", "max-1"):
-            return ["remove_insert %s 0 none %s:%s,%s:%s" % (sl, hx(b"big1"), hx(b"x" * 150), hx(b"big2"), hx(b"y" * 150)),
+            return own[:1] + own[3:4] + ["remove_insert %s 0 none %s:%s,%s:%s" % (sl, hx(b"big1"), hx(b"x" * 150), hx(b"big2"), hx(b"y" * 150)),
                     "remove_insert %s 0 %s none" % (sl, hx(b"id")), "insert %s 0 %s b:%s" % (sl, hx(b"big"), hx(b"z" * 290))]
         return []
     cases = []
@@ -1579,6 +1583,9 @@ def check_C03(ctx):
                 t[3] = rng.choice(["1", "2", "3"])
                 extra.append(case[:i] + [" ".join(t)] + case[i + 1:])
         cases += extra
+        # every mutator x record state x signer with every accessor afterwards (own generator: the cases above stay as they were)
+        import random as _random
+        cases += op_state_matrix(ctx, gkt, None, _random.Random(ctx.seed * 7919 + len(kt) * 31 + sum(kt.encode())))
         if kt == "k256":
             for _ in range(ctx.scale(60, 2000)):
                 s = gens.rbytes(rng, rng.randrange(0, 70)) if rng.random() < 0.5 else bytes(rng.choice(b"0123456789abcdefxX") for _ in range(rng.randrange(0, 70)))
